@@ -24,6 +24,7 @@ from fractions import Fraction
 from ..astutil import (text, access_path, calls_in, func_params, stmts_of, is_const, const_value, method_call, range_bounds, fold)
 from ..loader import where, AnalysisError
 from .. import poly
+from ..terms import Terms, PathEnv, fuse, alpha, canonical
 
 
 def is_method(node, name):
@@ -67,6 +68,44 @@ def is_hadamard(H):
     return True
 
 
+def code_table(f, codes):
+    """{code: returned value} of a one-argument code map, by evaluating its guards for each code; None where undecided"""
+    from ..paths import Enumerator
+    arg = func_params(f)[0]
+    table = {}
+    for code in codes:
+        vals = set()
+        for p in Enumerator(loop_counts=(0, 1)).function_paths(f):
+            ok = True
+            for e in p.events:
+                if e.kind != "guard":
+                    continue
+                g = e.node
+                tv = None
+                if isinstance(g, ast.Compare) and len(g.ops) == 1:
+                    try:
+                        a, b = fold(g.left, {arg: code}), fold(g.comparators[0], {arg: code})
+                        tv = {ast.Eq: a == b, ast.NotEq: a != b, ast.Lt: a < b, ast.LtE: a <= b, ast.Gt: a > b, ast.GtE: a >= b}.get(type(g.ops[0]))
+                    except ValueError:
+                        tv = None
+                if tv is None:
+                    vals.add(None)
+                elif tv != bool(e.val):
+                    ok = False
+                    break
+            if not ok:
+                continue
+            if p.outcome == "return" and p.node is not None and p.node.value is not None:
+                try:
+                    vals.add(fold(p.node.value, {arg: code}))
+                except ValueError:
+                    vals.add(None)
+            else:
+                vals.add(None)
+        table[code] = vals.pop() if len(vals) == 1 else None
+    return table
+
+
 def r1_fullfact(ctx, repo):
     doe = repo.module("doe")
     fn = doe.functions.get("fullfact")
@@ -82,59 +121,119 @@ def r1_fullfact(ctx, repo):
     i = lp.target.id
     body = lp.body
     problems = []
-    tile = [k for k, s in enumerate(body) if isinstance(s, ast.AugAssign) and isinstance(s.op, (ast.FloorDiv, ast.Div)) and text(s.value) == "%s[%s]" % (lv, i)]
-    rep = [k for k, s in enumerate(body) if isinstance(s, ast.AugAssign) and isinstance(s.op, ast.Mult) and text(s.value) == "%s[%s]" % (lv, i)]
-    col = [k for k, s in enumerate(body) if isinstance(s, ast.Assign) and isinstance(s.targets[0], ast.Subscript) and text(s.targets[0]).endswith("[:, %s]" % i)]
-    rng = [k for k, s in enumerate(body) if isinstance(s, ast.Assign) and isinstance(s.value, ast.BinOp) and isinstance(s.value.op, ast.Mult) and isinstance(s.targets[0], ast.Name)]
-    inner = [k for k, s in enumerate(body) if isinstance(s, ast.For)]
-    if not (tile and rep and col and rng and inner):
+    T = Terms(fn)
+    LI = "%s[%s]" % (lv, i)
+    # the column written for factor i, as a term over the loop-entry values of the two counters
+    col = [s_ for s_ in body if isinstance(s_, ast.Assign) and isinstance(s_.targets[0], ast.Subscript) and text(s_.targets[0]).endswith("[:, %s]" % i)]
+    inner = [s_ for s_ in body if isinstance(s_, ast.For)]
+    if len(col) != 1 or len(inner) != 1 or not isinstance(inner[0].target, ast.Name):
         ctx.inconclusive("R1", C, where(doe, lp), "mixed-radix statements not recognised")
         return
-    tv, rv = access_path(body[tile[0]].target), access_path(body[rep[0]].target)
-    if not (tile[0] < rng[0]):
+    V = T.expand(col[0].value, at=col[0])
+    if isinstance(V, ast.Name):
+        # a local whose term was dropped because a counter it reads was updated later: take its value as of its definition
+        dfn = [s_ for s_ in body[:body.index(col[0])] if isinstance(s_, ast.Assign) and access_path(s_.targets[0]) == V.id]
+        if len(dfn) == 1:
+            V = T.expand(dfn[0].value, at=dfn[0])
+    il = inner[0]
+    j = il.target.id
+    # V = <block> * <tile>
+    blockv = tilev = None
+    if isinstance(V, ast.BinOp) and isinstance(V.op, ast.Mult):
+        for a, b in ((V.left, V.right), (V.right, V.left)):
+            if isinstance(a, ast.Name) and any(isinstance(x, ast.Name) and x.id == a.id for st_ in il.body for x in ast.walk(st_)):
+                blockv, tilev = a.id, b
+    if blockv is None:
+        ctx.inconclusive("R1", C, where(doe, col[0]), "column value %s is not <level block> * <tile count>" % text(V)[:100])
+        return
+    # tile count: T // levels[i] with T the counter as it entered the iteration
+    tv = None
+    if isinstance(tilev, ast.BinOp) and isinstance(tilev.op, (ast.FloorDiv, ast.Div)) and isinstance(tilev.left, ast.Name) and text(tilev.right) == LI:
+        tv = tilev.left.id
+    elif isinstance(tilev, ast.Name):
+        tv = tilev.id
         problems.append("the tile count is divided by the level count AFTER the column was built (the first factor is tiled too often)")
-    if not (rep[0] > inner[0]):
-        problems.append("the repeat count is multiplied BEFORE the levels of this factor are laid out")
-    il = body[inner[0]]
-    irb = range_bounds(il.iter)
-    if not (irb and text(irb[1]) == "%s[%s]" % (lv, i) and (irb[0] is None or text(irb[0]) == "0")):
-        problems.append("levels are enumerated over %s, not range(levels[i])" % text(il.iter))
     else:
-        j = il.target.id
-        acc = [s for s in il.body if isinstance(s, ast.AugAssign) and isinstance(s.op, ast.Add)]
-        if not (acc and text(acc[0].value).replace(" ", "") in ("[%s]*%s" % (j, rv), "%s*[%s]" % (rv, j))):
-            problems.append("level j is not repeated `repeat` times (%s)" % (text(acc[0].value) if acc else "missing"))
-    rs = body[rng[0]]
-    if tv not in text(rs.value):
-        problems.append("the level block is not tiled by the tile count")
-    # initial values
-    init = {access_path(s.targets[0]): s.value for s in fn.body if isinstance(s, ast.Assign) and isinstance(s.targets[0], ast.Name)}
-    if not (is_const(init.get(rv)) and const_value(init[rv]) == 1):
-        problems.append("the repeat count does not start at 1")
-    if not (isinstance(init.get(tv), ast.Call) and (access_path(init[tv].func) or "").endswith("prod") and access_path(init[tv].args[0]) == lv):
-        problems.append("the tile count does not start at prod(levels)")
-    rows = [v for k, v in init.items() if isinstance(v, ast.Call) and (access_path(v.func) or "").endswith("prod")]
+        ctx.inconclusive("R1", C, where(doe, col[0]), "tile count %s not recognised" % text(tilev)[:100])
+        return
+    # levels of the block: for j in range(levels[i]): block += [j] * R
+    irb = range_bounds(T.expand(il.iter, at=il))
+    rv = None
+    if not (irb and text(irb[1]) == LI and (irb[0] is None or text(irb[0]) == "0") and irb[2] is None):
+        problems.append("levels are enumerated over %s, not range(levels[i])" % text(il.iter))
+    acc = []
+    for s_ in il.body:
+        if isinstance(s_, ast.AugAssign) and isinstance(s_.op, ast.Add) and access_path(s_.target) == blockv:
+            acc.append(T.expand(s_.value, at=s_))
+        elif isinstance(s_, ast.Expr) and is_method(s_.value, "extend") and access_path(s_.value.func.value) == blockv and len(s_.value.args) == 1:
+            acc.append(T.expand(s_.value.args[0], at=s_))
+    if len(acc) != 1 or not (isinstance(acc[0], ast.BinOp) and isinstance(acc[0].op, ast.Mult)):
+        ctx.inconclusive("R1", C, where(doe, il), "level accumulation not recognised")
+        return
+    for a, b in ((acc[0].left, acc[0].right), (acc[0].right, acc[0].left)):
+        if isinstance(a, ast.List) and len(a.elts) == 1 and access_path(a.elts[0]) == j:
+            if isinstance(b, ast.Name):
+                rv = b.id
+            elif isinstance(b, ast.BinOp) and isinstance(b.op, ast.Mult) and LI in (text(b.left), text(b.right)):
+                rv = (b.left if text(b.right) == LI else b.right)
+                rv = rv.id if isinstance(rv, ast.Name) else None
+                problems.append("the repeat count is multiplied BEFORE the levels of this factor are laid out")
+    if rv is None:
+        problems.append("level j is not repeated `repeat` times (%s)" % text(acc[0]))
+    # the block starts empty in every iteration
+    fresh = [s_ for s_ in body[:body.index(il)] if isinstance(s_, ast.Assign) and access_path(s_.targets[0]) == blockv and isinstance(s_.value, ast.List) and not s_.value.elts]
+    if not fresh:
+        problems.append("the level block is not started empty for each factor")
+    # state after one iteration and before the loop
+    end_env = T.after.get(id(body[-1]), ({}, set()))[0] or {}
+    pre_env = T.before.get(id(lp), ({}, set()))[0]
+    if tv is not None:
+        te = end_env.get(tv)
+        if not (te is not None and isinstance(te, ast.BinOp) and isinstance(te.op, (ast.FloorDiv, ast.Div)) and access_path(te.left) == tv and text(te.right) == LI):
+            problems.append("the tile count is not divided by levels[i] once per factor (%s)" % (text(te) if te is not None else "unchanged"))
+        t0 = pre_env.get(tv)
+        if not (isinstance(t0, ast.Call) and (access_path(t0.func) or "").endswith("prod") and t0.args and access_path(t0.args[0]) == lv):
+            problems.append("the tile count does not start at prod(levels)")
+    if rv is not None:
+        re_ = end_env.get(rv)
+        if not (re_ is not None and isinstance(re_, ast.BinOp) and isinstance(re_.op, ast.Mult) and {text(re_.left), text(re_.right)} == {rv, LI}):
+            problems.append("the repeat count is not multiplied by levels[i] once per factor (%s)" % (text(re_) if re_ is not None else "unchanged"))
+        r0 = pre_env.get(rv)
+        if not (r0 is not None and is_const(r0) and const_value(r0) == 1):
+            problems.append("the repeat count does not start at 1")
     if problems:
         ctx.violated("R1", C, where(doe, lp), "; ".join(problems), key="mixed-radix")
     else:
-        ctx.holds("R1", C, where(doe, lp), "mixed-radix enumeration: tile //= levels[i] before, repeat *= levels[i] after, level j repeated `repeat` times, block tiled `tile` times", key="mixed-radix")
-    # construct_df index pairing
+        ctx.holds("R1", C, where(doe, lp), "mixed-radix enumeration: column i = (levels 0..L-1, each repeated R times) tiled T//L times; per factor T //= L, R *= L; T0 = prod(levels), R0 = 1", key="mixed-radix")
+    # construct_df index pairing: the returned table as a canonical term
     cd = doe.functions.get("construct_df")
     x, fl = func_params(cd)[:2]
-    apps = [c for c in calls_in(cd) if method_call(c) and method_call(c)[1] == "append" and c.args and isinstance(c.args[0], ast.Subscript) and isinstance(c.args[0].value, ast.Subscript)]
-    ok = False
-    if apps:
-        a = apps[0].args[0]
-        fidx = text(a.value.slice)
-        inner_idx = [text(n.slice) for n in ast.walk(a.slice) if isinstance(n, ast.Subscript)]
-        ok = access_path(a.value.value) == fl and inner_idx == [fidx]
-    ctx.check(ok, "R1", "doe.construct_df", where(doe, cd), "value = factor_lists[k][code of column k]: column and factor index are the same variable" if ok else
-              "the code of one column is looked up in the level list of another factor", key="index-pairing")
+    rts = [t for _, t in Terms(cd).returns if t is not None]
+    state, bad = None, ""
+    if len(rts) == 1:
+        ct = alpha(fuse(rts[0]))
+        if isinstance(ct, ast.ListComp) and isinstance(ct.elt, ast.ListComp) and len(ct.generators) == 1 and len(ct.elt.generators) == 1:
+            row, inner = ct.generators[0], ct.elt.generators[0]
+            e = ct.elt.elt
+            rowv = access_path(row.target)
+            iv = access_path(inner.target)
+            if access_path(row.iter) == x and isinstance(e, ast.Subscript) and isinstance(e.value, ast.Subscript) and access_path(e.value.value) == fl:
+                fidx = text(e.value.slice)
+                codes = [n_ for n_ in ast.walk(e.slice) if isinstance(n_, ast.Subscript) and access_path(n_.value) == rowv]
+                full = range_bounds(inner.iter) and text(range_bounds(inner.iter)[1]) == "len(%s)" % rowv and range_bounds(inner.iter)[0] is None and not inner.ifs and not row.ifs
+                if len(codes) == 1 and fidx == iv:
+                    if text(codes[0].slice) == iv and full:
+                        state = True
+                    elif text(codes[0].slice) != iv:
+                        state, bad = False, "the code of column %s is looked up in the level list of factor %s" % (text(codes[0].slice), iv)
+    ctx.check3(state, "R1", "doe.construct_df", where(doe, cd), "value = factor_lists[k][code of column k] for every column k of every row", bad,
+               "table construction not recognised", key="index-pairing")
     bf = doe.functions.get("build_full_fact")
-    t = text(bf)
-    ok = "fullfact(factor_lvl_count)" in t and "construct_df(x, factor_lists)" in t and "factor_lvl_count.append(len(factor_level_ranges[key]))" in t
-    ctx.check3(True if ok else None, "R1", "doe.build_full_fact", where(doe, bf), "level counts and level lists are collected in the same key order and passed to fullfact / construct_df",
-               unknown_detail="builder shape not recognised", key="wiring")
+    d = func_params(bf)[0]
+    rts = [canonical(t) for _, t in Terms(bf).returns if t is not None]
+    want = "construct_df(fullfact([len({d}[_0]) for _0 in {d}]), [{d}[_1] for _1 in {d}])".format(d=d)
+    ctx.check3(True if rts == [want] else None, "R1", "doe.build_full_fact", where(doe, bf), "level counts and level lists are collected in the same key order and passed to fullfact / construct_df",
+               unknown_detail="builder value %s not recognised" % (rts[0][:120] if rts else "?"), key="wiring")
 
 
 def r2_pb(ctx, repo):
@@ -215,43 +314,35 @@ def r2_pb(ctx, repo):
                 problems.append("the run count %s is not 4*(floor(n/4)+1), the next multiple of four above the factor count" % text(e))
             else:
                 ctx.inconclusive("R2", C, where(doe, run_s[0]), "run count %s not normalisable" % text(e), key="run-count")
-    sl = [s for s in stmts_of(fn) if isinstance(s, ast.Assign) and isinstance(s.value, ast.Subscript) and isinstance(s.value.slice, ast.Tuple)]
+    sl = [n_ for st_ in stmts_of(fn) if isinstance(st_, (ast.Assign, ast.Return)) and st_.value is not None for n_ in ast.walk(st_.value)
+          if isinstance(n_, ast.Subscript) and isinstance(n_.slice, ast.Tuple) and len(n_.slice.elts) == 2 and isinstance(n_.slice.elts[1], ast.Slice)
+          and text(n_.slice.elts[0]) == ":"]
     ok_slice = False
-    for s in sl:
-        el = s.value.slice.elts
-        if len(el) == 2 and isinstance(el[1], ast.Slice) and keep_s:
+    for nd in sl:
+        el = nd.slice.elts
+        if keep_s:
             kv = access_path(keep_s[0].targets[0])
             lo, hi = el[1].lower, el[1].upper
             if lo is not None and is_const(lo) and const_value(lo) == 1 and hi is not None and poly.equal(hi, poly.parse("%s + 1" % kv)):
                 ok_slice = True
             else:
-                problems.append("the column slice %s does not drop exactly the all-ones first column and keep `%s` columns" % (text(s.value), kv))
-    if not sl:
-        problems.append("column reduction not found")
+                problems.append("the column slice %s does not drop exactly the all-ones first column and keep `%s` columns" % (text(nd), kv))
     if problems:
         ctx.violated("R2", C, where(doe, fn), "; ".join(problems), key="size")
     elif ok_slice:
         ctx.holds("R2", C, where(doe, fn), "run count 4*(floor(n/4)+1); first (all-ones) column dropped, `keep` = factor count columns kept", key="size")
+    else:
+        ctx.inconclusive("R2", C, where(doe, fn), "column reduction not found", key="size")
     # codes -> two bounds
     bp = doe.functions.get("build_plackett_burman")
     ic = [f for f in ast.walk(bp) if isinstance(f, ast.FunctionDef) and f.name == "index_change"]
     state = None
     bad_detail = ""
-    if ic and "construct_df(x, factor_lists)" in text(bp) and "pbdesign(factor_count)" in text(bp):
-        # decision table of the code map over the two codes -1 / +1
-        f = ic[0]
-        arg = func_params(f)[0]
-        table = {}
-        for code in (-1, 1):
-            val = None
-            for st in f.body:
-                if isinstance(st, ast.If) and isinstance(st.test, ast.Compare) and access_path(st.test.left) == arg and is_const(st.test.comparators[0]) \
-                        and isinstance(st.test.ops[0], ast.Eq):
-                    br = st.body if code == const_value(st.test.comparators[0]) else st.orelse
-                    rr = [x for x in br if isinstance(x, ast.Return)]
-                    if rr:
-                        val = code if access_path(rr[0].value) == arg else (const_value(rr[0].value) if is_const(rr[0].value) else None)
-            table[code] = val
+    d_ = func_params(bp)[0]
+    rts = [canonical(t) for _, t in Terms(bp).returns if t is not None]
+    wired = rts == ["construct_df(np.vectorize(index_change)(pbdesign(len({d}))), [{d}[_0] for _0 in {d}])".format(d=d_)]
+    if ic and wired:
+        table = code_table(ic[0], (-1, 1))
         if table == {-1: 0, 1: 1}:
             state = True
         elif None not in table.values():
@@ -281,68 +372,100 @@ def r3_bb(ctx, repo):
     if not (irb and irb[0] is not None and poly.equal(irb[0], poly.parse("%s + 1" % i)) and access_path(irb[1]) == n):
         problems.append("inner loop %s is not range(i+1, n): not every factor pair i<j gets a block" % text(il.iter))
     body = il.body
-    inc = [k for k, s in enumerate(body) if (isinstance(s, ast.Assign) and isinstance(s.value, ast.BinOp) and access_path(s.targets[0]) == access_path(s.value.left)
-                                             and isinstance(s.value.op, ast.Add) and is_const(s.value.right) and const_value(s.value.right) == 1)
-           or (isinstance(s, ast.AugAssign) and isinstance(s.op, ast.Add) and is_const(s.value) and const_value(s.value) == 1)]
-    blocks = [(k, s) for k, s in enumerate(body) if isinstance(s, ast.Assign) and isinstance(s.targets[0], ast.Subscript) and isinstance(s.targets[0].slice, ast.Tuple)]
-    if len(inc) != 1 or len(blocks) != 2:
-        ctx.inconclusive("R3", C, where(doe, il), "block counter / two block assignments not recognised")
+    T = Terms(fn)
+    unknown = []
+    blocks = [s_ for s_ in body if isinstance(s_, ast.Assign) and isinstance(s_.targets[0], ast.Subscript) and isinstance(s_.targets[0].slice, ast.Tuple)
+              and len(s_.targets[0].slice.elts) == 2 and isinstance(s_.targets[0].slice.elts[0], ast.Slice)]
+    if len(blocks) != 2:
+        ctx.inconclusive("R3", C, where(doe, il), "two block assignments not recognised")
         return
-    cnt = access_path(body[inc[0]].targets[0] if isinstance(body[inc[0]], ast.Assign) else body[inc[0]].target)
-    if inc[0] > blocks[0][0]:
-        problems.append("the block counter is incremented after the block was written")
-    init = [s for s in fn.body if isinstance(s, ast.Assign) and access_path(s.targets[0]) == cnt]
-    if not (init and is_const(init[0].value) and const_value(init[0].value) == 0):
+    end_env = T.after.get(id(body[-1]), ({}, set()))[0] or {}
+    pre_env = T.before.get(id(ol), ({}, set()))[0]
+    # the block counter: a local that grows by one per pair and starts at 0
+    counters = [k for k, v in end_env.items() if poly.equal(v, poly.parse("%s + 1" % k))]
+    cnt = counters[0] if len(counters) == 1 else None
+    if cnt is None:
+        ctx.inconclusive("R3", C, where(doe, il), "block counter not recognised (%s)" % sorted(counters))
+        return
+    c0 = pre_env.get(cnt)
+    if not (c0 is not None and is_const(c0) and const_value(c0) == 0):
         problems.append("the block counter does not start at 0")
-    hf = None
-    for s in fn.body:
-        if isinstance(s, ast.Assign) and isinstance(s.value, ast.Call) and access_path(s.value.func) == "ff2n" and text(s.value.args[0]) == "2":
-            hf = access_path(s.targets[0])
-    if hf is None:
-        problems.append("the +-1 two-factor design ff2n(2) is not used")
-    else:
-        S = "%s.shape[0]" % hf
-        cols_seen = []
-        for k, s in blocks:
-            rows, col = s.targets[0].slice.elts
-            lo, hi = rows.lower, rows.upper
-            # max([0, e]) wrapper
-            if isinstance(lo, ast.Call) and access_path(lo.func) == "max" and isinstance(lo.args[0], ast.List) and len(lo.args[0].elts) == 2:
-                lo = lo.args[0].elts[1]
-            from .c16 import subst
-            lo2, hi2 = subst(lo, {S: "S"}), subst(hi, {S: "S"})
-            if not (poly.equal(lo2, poly.parse("(%s - 1) * S" % cnt)) and poly.equal(hi2, poly.parse("%s * S" % cnt))):
-                problems.append("row block %s is not [(k-1)s, ks): blocks of different pairs overlap or leave gaps" % text(s.targets[0]))
-            cols_seen.append((access_path(col), text(s.value)))
-        want = {(i, "%s[:, 0]" % hf), (j, "%s[:, 1]" % hf)}
-        if set(cols_seen) != want:
+    matrix = access_path(blocks[0].targets[0].value)
+    cols_seen = []
+    S = None
+    for s_ in blocks:
+        tg = T.expand(s_.targets[0], at=s_)
+        rows, colx = tg.slice.elts
+        lo, hi = rows.lower, rows.upper
+        if isinstance(lo, ast.Call) and access_path(lo.func) == "max" and len(lo.args) == 1 and isinstance(lo.args[0], ast.List) and len(lo.args[0].elts) == 2:
+            lo = lo.args[0].elts[1]       # max([0, e])
+        elif isinstance(lo, ast.Call) and access_path(lo.func) == "max" and len(lo.args) == 2 and is_const(lo.args[0]) and const_value(lo.args[0]) == 0:
+            lo = lo.args[1]
+        vx = T.expand(s_.value, at=s_)
+        # the two-factor design and its number of rows
+        src = vx.value if isinstance(vx, ast.Subscript) else None
+        if not (isinstance(src, ast.Call) and access_path(src.func) == "ff2n" and src.args and text(src.args[0]) == "2"):
+            unknown.append("block source %s is not a column of ff2n(2)" % text(vx)[:80])
+            continue
+        S = "ff2n(2).shape[0]"
+        from .c16 import subst
+        if lo is None or hi is None:
+            unknown.append("row block %s has an open end" % text(s_.targets[0]))
+            continue
+        lo2, hi2 = subst(lo, {S: "S"}), subst(hi, {S: "S"})
+        e_lo, e_hi = poly.equal(lo2, poly.parse("%s * S" % cnt)), poly.equal(hi2, poly.parse("(%s + 1) * S" % cnt))
+        if e_lo is None or e_hi is None:
+            unknown.append("row block %s not normalisable" % text(s_.targets[0]))
+        elif not (e_lo and e_hi):
+            problems.append("row block %s is not [(k-1)s, ks) for the k-th pair: blocks of different pairs overlap or leave gaps" % text(s_.targets[0]))
+        cols_seen.append((access_path(colx), text(vx.slice)))
+    if len(cols_seen) == 2:
+        norm = {(c_, t_.replace(" ", "").strip("()")) for c_, t_ in cols_seen}
+        if norm != {(i, ":,0"), (j, ":,1")}:
             problems.append("the block columns receive %s, expected columns i and j to take the two columns of the two-factor design" % sorted(cols_seen))
-        nb = [s for s in fn.body if isinstance(s, ast.Assign) and isinstance(s.value, ast.Call) and access_path(s.value.func) == "int"]
-        okn = False
-        for s in nb:
-            e = subst(s.value.args[0], {S: "S"})
-            if poly.equal(e, poly.parse("%s * (%s - 1) * S / 2" % (n, n))):
-                okn = True
-        if not okn:
-            problems.append("the number of factorial rows is not s*n(n-1)/2")
-        base = [s for s in fn.body if isinstance(s, ast.Assign) and isinstance(s.value, ast.Call) and access_path(s.value.func) == "repeat_center"]
-        if not base:
-            problems.append("the design does not start from the centre code")
+    # the matrix the blocks are written into: repeat_center(n, s*n(n-1)/2) rows of the centre code
+    h0 = T.origin(matrix, ol) if matrix else None
+    if isinstance(h0, ast.Call) and access_path(h0.func) == "repeat_center" and len(h0.args) == 2 and S is not None:
+        e = h0.args[1]
+        if isinstance(e, ast.Call) and access_path(e.func) == "int" and len(e.args) == 1:
+            e = e.args[0]
+        from .c16 import subst
+        eqn = poly.equal(subst(e, {S: "S"}), poly.parse("%s * (%s - 1) * S / 2" % (n, n)))
+        if eqn is False:
+            problems.append("the number of factorial rows %s is not s*n(n-1)/2" % text(h0.args[1]))
+        elif eqn is None:
+            unknown.append("number of factorial rows %s not normalisable" % text(h0.args[1]))
+    elif h0 is not None and not (isinstance(h0, ast.Call) and access_path(h0.func) == "repeat_center"):
+        problems.append("the design does not start from the centre code (%s)" % text(h0)[:60])
+    else:
+        unknown.append("initial design matrix not recognised")
     # centre rows appended
-    cen = [s for s in fn.body if isinstance(s, ast.Assign) and "repeat_center(%s, center)" % n in text(s.value)]
-    if not cen:
-        problems.append("the centre runs repeat_center(n, center) are not appended")
+    rts = [text(t) for _, t in T.returns if t is not None]
+    if not rts or any("repeat_center(%s, center)" % n not in t for t in rts):
+        if rts and all("repeat_center" not in t for t in rts):
+            problems.append("the centre runs repeat_center(n, center) are not appended")
+        else:
+            unknown.append("returned design %s not recognised" % (rts[0][:80] if rts else "?"))
     rc = doe.functions.get("repeat_center")
-    if rc is None or "np.zeros((repeat, n))" not in text(rc):
-        problems.append("repeat_center does not produce rows of the centre code 0")
+    rct = [canonical(t) for _, t in Terms(rc).returns if t is not None] if rc is not None else []
+    if rct != ["np.zeros((repeat, n))"]:
+        unknown.append("repeat_center value %s not recognised" % (rct[:1] or "?"))
     if problems:
         ctx.violated("R3", C, where(doe, il), "; ".join(problems), key="blocks")
+    elif unknown:
+        ctx.inconclusive("R3", C, where(doe, il), "; ".join(unknown), key="blocks")
     else:
         ctx.holds("R3", C, where(doe, il), "one block of the +-1 two-factor design per factor pair i<j in rows [(k-1)s, ks), other factors at the centre code, centre runs appended", key="blocks")
     # builder: one centre run, codes -> (lo, mid, hi)
     bb = doe.functions.get("build_box_behnken")      # the last definition wins
-    t = text(bb)
-    bcalls = [c for c in calls_in(bb) if access_path(c.func) == "bbdesign"]
+    d_ = func_params(bb)[0]
+    TB = Terms(bb)
+    rts = [alpha(fuse(t)) for _, t in TB.returns if t is not None]
+    rt = rts[0] if len(rts) == 1 else None
+    design = lists = None
+    if isinstance(rt, ast.Call) and access_path(rt.func) == "construct_df" and len(rt.args) == 2:
+        design, lists = rt.args
+    bcalls = [c for c in ast.walk(design) if isinstance(c, ast.Call) and access_path(c.func) == "bbdesign"] if design is not None else []
     cstate, cval = None, None
     if bcalls:
         kw = {k.arg: k.value for k in bcalls[0].keywords}
@@ -354,19 +477,29 @@ def r3_bb(ctx, repo):
             cstate, cval = False, "default (table value)"
     ctx.check3(cstate, "R3", "doe.build_box_behnken", where(doe, bb), "exactly one centre run (center=1)",
                "the Box-Behnken builder requests %r centre runs, the property requires exactly one" % (cval,), "centre-run argument not recognised", key="centre")
-    shift = [s_ for s_ in stmts_of(bb) if isinstance(s_, ast.Assign) and isinstance(s_.value, ast.BinOp) and isinstance(s_.value.op, ast.Add)
-             and access_path(s_.targets[0]) == access_path(s_.value.left) and is_const(s_.value.right)]
-    mid = [s_ for s_ in stmts_of(bb) if isinstance(s_, ast.Expr) and is_method(s_.value, "append") and "/ 2" in text(s_.value)]
     mstate = None
     mbad = ""
-    if shift and "construct_df(x, factor_lists)" in t:
-        k_ = const_value(shift[0].value.right)
+    lists_ok = lists is not None and text(lists) == "[{d}[_0] for _0 in {d}]".format(d=d_)
+    if bcalls and lists_ok and isinstance(design, ast.BinOp) and isinstance(design.op, ast.Add) and design.left is bcalls[0] and is_const(design.right) \
+            and text(bcalls[0].args[0]) == "len(%s)" % d_:
+        k_ = const_value(design.right)
         if k_ != 1:
             mstate, mbad = False, "codes -1/0/+1 are shifted by %r instead of 1: they no longer index (lo, mid, hi)" % k_
-        elif mid and ".sort()" in t:
-            ok_mid = bool(poly.equal(mid[0].value.args[0], poly.parse("(factor_level_ranges[key][0] + factor_level_ranges[key][1]) / 2")))
-            mstate = True if ok_mid else False
-            mbad = "the middle level %s is not the mean of the two bounds" % text(mid[0].value.args[0])
+        else:
+            # the middle level: for key in D: if len(D[key]) == 2: D[key].append(mean of the two); D[key].sort()
+            for lp in [s_ for s_ in bb.body if isinstance(s_, ast.For) and access_path(s_.iter) == d_ and isinstance(s_.target, ast.Name)]:
+                key = lp.target.id
+                apps = [s_ for s_ in stmts_of(lp) if isinstance(s_, ast.Expr) and is_method(s_.value, "append") and len(s_.value.args) == 1]
+                sorts = [s_ for s_ in stmts_of(lp) if isinstance(s_, ast.Expr) and is_method(s_.value, "sort")]
+                if len(apps) == 1 and sorts:
+                    recv = text(TB.expand(apps[0].value.func.value, at=apps[0]))
+                    srecv = text(TB.expand(sorts[0].value.func.value, at=sorts[0]))
+                    mid = TB.expand(apps[0].value.args[0], at=apps[0])
+                    if recv == srecv == "%s[%s]" % (d_, key):
+                        eq = poly.equal(mid, poly.parse("({d}[{k}][0] + {d}[{k}][1]) / 2".format(d=d_, k=key)))
+                        if eq is not None:
+                            mstate = bool(eq)
+                            mbad = "the middle level %s is not the mean of the two bounds" % text(mid)
     ctx.check3(mstate, "R3", "doe.build_box_behnken", where(doe, bb), "codes -1/0/+1 shifted to indices 0/1/2 of the sorted list [lo, mid, hi]", mbad, "code-to-level mapping not recognised", key="codes")
 
 
@@ -378,39 +511,52 @@ def r4_gsd_partial(ctx, repo):
         raise AnalysisError("_make_partitions not found")
     C = "doe._make_partitions"
     fl, P = func_params(mp)[:2]
-    loops = [s for s in stmts_of(mp) if isinstance(s, ast.For)]
-    ok = False
-    detail = "loop nest not recognised"
-    if len(loops) == 3:
-        lp, lf, ll = loops
-        rp, rl = range_bounds(lp.iter), range_bounds(ll.iter)
-        pi, li = lp.target.id, ll.target.id
-        nl = lf.target.id if isinstance(lf.target, ast.Name) else None
-        idx = [s for s in ll.body if isinstance(s, ast.Assign) and isinstance(s.targets[0], ast.Name)]
-        guard = [s for s in ll.body if isinstance(s, ast.If)]
-        if rp and rl and idx and guard and nl and access_path(lf.iter) == fl:
-            okp = rp[0] is not None and text(rp[0]) == "1" and poly.equal(rp[1], poly.parse("%s + 1" % P))
-            okl = rl[0] is not None and text(rl[0]) == "1" and access_path(rl[1]) == nl
-            oki = poly.equal(idx[0].value, poly.parse("%s + (%s - 1) * %s" % (pi, li, P)))
-            t = guard[0].test
-            okg = isinstance(t, ast.Compare) and access_path(t.left) == access_path(idx[0].targets[0]) and isinstance(t.ops[0], ast.LtE) and access_path(t.comparators[0]) == nl
-            oka = any(method_call(c) and method_call(c)[1] == "append" and access_path(c.args[0]) == access_path(idx[0].targets[0]) for c in calls_in(guard[0]))
-            ok = bool(okp and okl and oki and okg and oka)
-            detail = "level index = partition + (k-1)*reduction <= number of levels: residue classes mod `reduction`, disjoint and covering 1..L (for L >= 2)" if ok else \
-                "the partition of a factor's levels is not the residue-class partition index = p + (k-1)*reduction <= L (p-range ok=%s, k-range ok=%s, index ok=%s, guard ok=%s)" % (bool(okp), bool(okl), bool(oki), bool(okg))
-    ctx.check(ok, "R4", C, where(doe, mp), detail, key="partitions")
+    rts = [alpha(fuse(t)) for _, t in Terms(mp).returns if t is not None]
+    state, detail = None, "returned partition structure not recognised"
+    if len(rts) == 1 and isinstance(rts[0], ast.ListComp) and isinstance(rts[0].elt, ast.ListComp) and isinstance(rts[0].elt.elt, ast.ListComp):
+        c1, c2, c3 = rts[0], rts[0].elt, rts[0].elt.elt
+        if all(len(c.generators) == 1 and isinstance(c.generators[0].target, ast.Name) for c in (c1, c2, c3)) and not c1.generators[0].ifs and not c2.generators[0].ifs:
+            pi, nl, li = (c.generators[0].target.id for c in (c1, c2, c3))
+            rp, rl = range_bounds(c1.generators[0].iter), range_bounds(c3.generators[0].iter)
+            if rp and rl and access_path(c2.generators[0].iter) == fl:
+                okp = rp[0] is not None and text(rp[0]) == "1" and bool(poly.equal(rp[1], poly.parse("%s + 1" % P))) and rp[2] is None
+                okl = rl[0] is not None and text(rl[0]) == "1" and access_path(rl[1]) == nl and rl[2] is None
+                oki = poly.equal(c3.elt, poly.parse("%s + (%s - 1) * %s" % (pi, li, P)))
+                ifs = c3.generators[0].ifs
+                okg = None
+                if len(ifs) == 1 and isinstance(ifs[0], ast.Compare) and len(ifs[0].ops) == 1:
+                    t = ifs[0]
+                    same = poly.equal(t.left, c3.elt)
+                    if same and access_path(t.comparators[0]) == nl:
+                        okg = isinstance(t.ops[0], ast.LtE)
+                elif not ifs:
+                    okg = False
+                if oki is not None and okg is not None:
+                    state = bool(okp and okl and oki and okg)
+                    detail = "level index = partition + (k-1)*reduction <= number of levels: residue classes mod `reduction`, disjoint and covering 1..L (for L >= 2)" if state else \
+                        "the partition of a factor's levels is not the residue-class partition index = p + (k-1)*reduction <= L (p-range ok=%s, k-range ok=%s, index ok=%s, guard ok=%s)" % (bool(okp), bool(okl), bool(oki), bool(okg))
+    ctx.check3(state, "R4", C, where(doe, mp), detail, detail, detail, key="partitions")
     ls = doe.functions.get("_make_latin_square")
-    t = text(ls) if ls else ""
-    okls = "np.arange(n)" in t and "np.roll(numbers, -i) for i in range(n)" in t
-    rolled = [c for c in calls_in(ls) if (access_path(c.func) or "").endswith("roll")] if ls else []
-    lstate = True if okls else (False if (rolled and len(rolled[0].args) == 2 and text(rolled[0].args[1]) not in ("-i", "i")) else None)
+    lrt = [alpha(fuse(t)) for _, t in Terms(ls).returns if t is not None] if ls else []
+    lstate, shift = None, "?"
+    if len(lrt) == 1:
+        t = lrt[0]
+        if isinstance(t, ast.Call) and (access_path(t.func) or "").endswith("vstack") and len(t.args) == 1 and isinstance(t.args[0], ast.ListComp) \
+                and len(t.args[0].generators) == 1 and not t.args[0].generators[0].ifs:
+            g = t.args[0].generators[0]
+            e = t.args[0].elt
+            nparam = func_params(ls)[0]
+            if isinstance(e, ast.Call) and (access_path(e.func) or "").endswith("roll") and len(e.args) == 2 and not e.keywords \
+                    and text(e.args[0]) in ("np.arange(%s)" % nparam, "numpy.arange(%s)" % nparam) and text(g.iter) == "range(%s)" % nparam and isinstance(g.target, ast.Name):
+                shift = text(e.args[1])
+                lstate = shift in ("-" + g.target.id, g.target.id)
     ctx.check3(lstate, "R4", "doe._make_latin_square", where(doe, ls or mp), "cyclic latin square: row i is the base row rolled by i",
-               "row i is rolled by %s, not by i: the rows are not the n cyclic shifts, so symbols repeat within a column" % (text(rolled[0].args[1]) if rolled else "?"), "latin-square construction not recognised", key="latin-square")
+               "row i is rolled by %s, not by i: the rows are not the n cyclic shifts, so symbols repeat within a column" % shift, "latin-square construction not recognised", key="latin-square")
     mpd = doe.functions.get("_map_partitions_to_design")
-    t = text(mpd) if mpd else ""
-    tt = t.replace("(", "").replace(")", "").replace(" ", "")
-    okm = "itertools.product*partition_sets" in tt and "partitions[p][factor]forfactor,pinenumeraterow" in tt and "np.vstackmappings" in tt
-    ctx.check3(True if okm else None, "R4", "doe._map_partitions_to_design", where(doe, mpd or mp), "each orthogonal-array row contributes the full product of its factors' partition sets",
+    mrt = [canonical(t) for _, t in Terms(mpd).returns if t is not None] if mpd else []
+    pa, oa_ = func_params(mpd)[:2] if mpd else ("partitions", "ortogonal_array")
+    wantm = "np.vstack([list(itertools.product(*[{p}[_0[_1]][_1] for _1 in range(len(_0))])) for _0 in {o} if not any((not {p}[_3][_2] for _2, _3 in enumerate(_0)))])".format(p=pa, o=oa_)
+    ctx.check3(True if mrt == [wantm] else None, "R4", "doe._map_partitions_to_design", where(doe, mpd or mp), "each orthogonal-array row contributes the full product of its factors' partition sets",
                unknown_detail="row-to-design mapping not recognised", key="row-products")
     # orthogonal-array augmentation: matrix i is combined with the matrices selected by row i of the latin square
     oa = doe.functions.get("_make_orthogonal_arrays")
@@ -433,15 +579,21 @@ def r4_gsd_partial(ctx, repo):
             ctx.assume("orthogonal-array selection has an unrecognised shape: not decided (this clause is outside the claim)")
     g = repo.cls("GSDGenerator", "operators")
     fn = g.methods.get("generate")
-    t = text(fn)
-    okg = "build_gsd(levels, self.reduction, self.n)" in t and "self.values[i][vector[i]]" in t and "levels.append(len(value))" in t
-    look = [n_ for n_ in ast.walk(fn) if isinstance(n_, ast.Subscript) and isinstance(n_.value, ast.Subscript) and access_path(n_.value.value) == "self.values"]
-    gstate = True if okg else None
-    gbad = ""
-    if not okg and look:
-        outer_i, inner = text(look[0].value.slice), look[0].slice
-        if text(inner) != "vector[%s]" % outer_i:
-            gstate, gbad = False, "level looked up with %s: the code of factor %s must index that factor's own level list (self.values[%s][vector[%s]])" % (text(look[0]), outer_i, outer_i, outer_i)
+    selfn = func_params(fn)[0]
+    grt = [alpha(fuse(t)) for _, t in Terms(fn).returns if t is not None]
+    gstate, gbad = None, ""
+    if len(grt) == 1 and isinstance(grt[0], ast.ListComp) and isinstance(grt[0].elt, ast.ListComp) and len(grt[0].generators) == 1 and len(grt[0].elt.generators) == 1:
+        outer, inner = grt[0].generators[0], grt[0].elt.generators[0]
+        e = grt[0].elt.elt
+        rowv, iv = access_path(outer.target), access_path(inner.target)
+        src_ok = text(outer.iter) == "build_gsd([len(_2) for _2 in {s}.values], {s}.reduction, {s}.n)".format(s=selfn) and not outer.ifs and not inner.ifs \
+            and text(inner.iter) == "range(len(%s))" % rowv
+        if isinstance(e, ast.Subscript) and isinstance(e.value, ast.Subscript) and access_path(e.value.value) == selfn + ".values":
+            outer_i = text(e.value.slice)
+            if text(e.slice) == "%s[%s]" % (rowv, outer_i) and outer_i == iv:
+                gstate = True if src_ok else None
+            else:
+                gstate, gbad = False, "level looked up with %s: the code of factor %s must index that factor's own level list (self.values[%s][row[%s]])" % (text(e), outer_i, outer_i, outer_i)
     ctx.check3(gstate, "R4", "GSDGenerator.generate", where(g.module, fn), "codes index the supplied level lists factor by factor", gbad, "code-to-level mapping not recognised", key="codes")
 
 
